@@ -828,6 +828,28 @@ def f_container_dunders():
             sorted(d, key=d.__getitem__), list(map(l.__getitem__, range(len(l)))))
 
 
+class _Outer:
+    class _Row(NamedTuple):
+        tag: str
+        width: int
+
+    class _Plain:
+        def __init__(self, x):
+            self.x = x
+
+    ROWS = (_Row('a', 1), _Row('b', 2))
+    BY_TAG = {r.tag: r for r in ROWS}
+    DEFAULT = _Plain(7)
+
+    @classmethod
+    def width(cls, tag):
+        return cls.BY_TAG[tag].width + cls.DEFAULT.x + cls._Plain(1).x
+
+
+def f_nested_classes():
+    return _Outer.width('b'), _Outer.ROWS[0].tag, isinstance(_Outer.ROWS[1], _Outer._Row), _Outer._Plain(3).x, _Outer._Row('z', 9).width
+
+
 def f_str_bits():
     s = bin(0b101101)[2:]
     return s, s.zfill(8), int(s[::-1], 2), s.count('1'), s.rfind('1'), s[:3] + '0' * 2, '{:08b}'.format(5), f'{5:08b}'[-3:], ''.join('1' if c == '0' else '0' for c in s)
